@@ -531,7 +531,12 @@ fn main() {
                 if mode == "zod" { let head = "export interface Cmd0Params extends"; if let Some(st) = t.find(head) { let blk = &t[st..st + t[st..].find("\n}").unwrap_or(t.len() - st)]; for k in ["on_event", "onEvent"] { if blk.contains(k) { keys.push(k.to_string()); } } } }
                 keys.sort();
                 if keys != ["first_arg", "on_event", "second_arg"] { return Err(format!("with default_parameter_case = snake_case the keys of cmd_0 are {:?}, expected [first_arg, on_event, second_arg]", keys)); }
-                if mode == "zod" && c.contains("onEvent") { return Err("commands.ts re-attaches the channel under `onEvent` although the configured case is snake_case".into()); }
+                if mode == "zod" && c.contains("'onEvent'") && !c.contains("macroCamel") { return Err("commands.ts re-attaches the channel under `onEvent` although the configured case is snake_case".into()); }
+                // a command that spells out its own convention keeps it whatever the configured default is
+                let own = object_keys(&t, "MacroCamelParams", mode == "zod").ok_or("UNPARSED: MacroCamelParams not found")?;
+                if own != ["userName"] { return Err(format!("#[tauri::command(async, rename_all = \"camelCase\")] fn macro_camel(user_name) has the keys {:?} under default_parameter_case = snake_case; Tauri reads `userName`", own)); }
+                let own = object_keys(&t, "MacroSnakeParams", mode == "zod").ok_or("UNPARSED: MacroSnakeParams not found")?;
+                if !own.contains(&"user_name".to_string()) { return Err(format!("#[tauri::command(rename_all = \"snake_case\")] fn macro_snake has the keys {:?}", own)); }
                 Ok(format!("{:?}", keys))
             });
             for (obj, attr, want) in [("MacroSnakeParams", "#[tauri::command(rename_all = \"snake_case\")]", vec!["on_event", "retry_count", "user_name"]), ("MacroCamelParams", "#[tauri::command(async, rename_all = \"camelCase\")]", vec!["userName"]),
@@ -598,6 +603,7 @@ fn main() {
             ("with_de_rename", "#[serde(deserialize_with = \"de_rename\", default)]", Some("with_de_rename")),
             ("rename_digit", "#[serde(rename = \"2fa\")]", Some("2fa")),
             ("rename_space", "#[serde(rename = \"display name\")]", Some("display name")),
+            ("default", "", Some("default")), ("package", "", Some("package")), ("class", "", Some("class")), ("new", "", Some("new")), ("delete", "", Some("delete")), ("interface", "", Some("interface")),
             ("type_", "", Some("type_")),
             ("match_", "", Some("match_")),
             ("ref__", "", Some("ref__")),
@@ -773,6 +779,7 @@ fn main() {
             ("c:user:login", "app.emit(\"c:user:login\", 1u32).ok();"), ("CUserLogin", "app.emit(\"CUserLogin\", 1u32).ok();"), ("c-user-login2", "app.emit(\"c-user-login2\", 1u32).ok();"),
             // functions carrying cfg / other attributes and qualifiers
             ("n-closure", ""), ("n-async-block-in-call", ""), ("n-unsafe-block", ""), ("n-if-let", ""), ("n-else-if", ""), ("n-while-let", ""), ("n-match-guard", ""), ("n-block-expr", ""), ("n-paren", ""), ("n-async-await", ""),
+            ("g-vec-of-param", ""), ("g-opt-of-param", ""), ("g-tuple-of-param", ""), ("l-lifetime-only", ""), ("l-const-only", ""),
             ("u-vec-infer", ""), ("u-map-array", ""), ("u-tuple-array", ""), ("u-vec-array", ""),
             ("z-sync-status", ""), ("z-tags", ""), ("t-typed-late-init", ""), ("t-typed-late-init-2", ""), ("s-path-struct", ""), ("s-path-struct-2", ""), ("s-bare-struct", ""),
             ("g-letter-in-name", ""), ("g-letter-in-name-2", ""), ("v-typed-first", ""), ("v-untyped-after-typed", ""),
@@ -819,6 +826,9 @@ fn main() {
             pub fn sync_b(app: &tauri::AppHandle, finished: SyncFinished) { app.emit(\"z-sync-status\", finished).ok(); }\n\
             pub fn tags_a(app: &tauri::AppHandle, tags: Vec<TagOnlyInSets>) { app.emit(\"z-tags\", tags).ok(); }\n\
             pub fn tags_b(app: &tauri::AppHandle, tags: std::collections::BTreeSet<TagOnlyInSets>) { app.emit(\"z-tags\", tags).ok(); }\n\
+            pub fn broadcast<T: Serialize + Clone, U>(app: &tauri::AppHandle, rows: Vec<T>, one: Option<T>, pair: (U, u32)) where U: Serialize + Clone { app.emit(\"g-vec-of-param\", rows).ok(); app.emit(\"g-opt-of-param\", one).ok(); app.emit(\"g-tuple-of-param\", pair).ok(); }\n\
+            #[derive(Serialize, Clone)]\npub struct LogLine<'a> { pub text: &'a str }\n#[derive(Serialize, Clone)]\npub struct Buffer<const N: usize> { pub used: u32 }\n\
+            pub fn borrowed(app: &tauri::AppHandle, line: LogLine<'_>, buf: Buffer<16>) { app.emit(\"l-lifetime-only\", line).ok(); app.emit(\"l-const-only\", buf).ok(); }\n\
             pub fn partly_unprintable(app: &tauri::AppHandle, src: Vec<Player>) { let items: Vec<_> = src.into_iter().collect(); app.emit(\"u-vec-infer\", items).ok(); let m: HashMap<String, [u32; 3]> = HashMap::new(); app.emit(\"u-map-array\", m).ok(); let t: (Player, [u8; 4]) = todo!(); app.emit(\"u-tuple-array\", t).ok(); let v: Vec<[f64; 3]> = vec![]; app.emit(\"u-vec-array\", v).ok(); }\n\
             pub fn struct_exprs(app: &tauri::AppHandle) { app.emit(\"s-path-struct\", crate::Player { id: 1 }).ok(); app.emit(\"s-path-struct-2\", self::Player { id: 2 }).ok(); app.emit(\"s-bare-struct\", Player { id: 3 }).ok(); }\n\
             pub fn late_init(app: &tauri::AppHandle, flag: bool) { let status: Player; if flag { status = Player { id: 1 }; } else { status = Player { id: 2 }; } app.emit(\"t-typed-late-init\", status.clone()).ok(); let count: u32; count = 3; app.emit(\"t-typed-late-init-2\", count).ok(); }\n\
@@ -864,6 +874,7 @@ fn main() {
                     ("n-if-let", "unknown"), ("n-while-let", "unknown"), ("n-match-guard", "unknown"), ("n-closure", "number"),
                     ("r-mixed", "unknown"), ("r-repeat", "number"),
                     ("g-letter-in-name", "types.ScanReport"), ("g-letter-in-name-2", "types.Ticket"), ("v-typed-first", "types.Player"), ("v-untyped-after-typed", "unknown"),
+                    ("g-vec-of-param", "unknown"), ("g-opt-of-param", "unknown"), ("g-tuple-of-param", "unknown"), ("l-lifetime-only", "types.LogLine || unknown"), ("l-const-only", "types.Buffer || unknown"),
                     ("u-vec-infer", "unknown"), ("u-map-array", "unknown || Record<string, number[]>"), ("u-tuple-array", "unknown || [types.Player, number[]]"), ("u-vec-array", "unknown || number[][]"),
                     ("s-path-struct", "types.Player"), ("s-path-struct-2", "types.Player"), ("s-bare-struct", "types.Player"),
                     ("t-typed-late-init", "types.Player"), ("t-typed-late-init-2", "number"), ("z-sync-status", "unknown"), ("z-tags", "types.TagOnlyInSets[]")];
@@ -1033,13 +1044,15 @@ fn main() {
             #[tauri::command]\npub fn _1st(a: u32) -> u32 {{ a }}\n\
             #[tauri::command]\npub fn __(a: u32) -> u32 {{ a }}\n\
             #[tauri::command]\npub fn _2() -> u32 {{ 0 }}\n\
+            #[derive(Serialize, Deserialize)]\npub struct Category {{ pub name: String, pub children: Vec<Category>, pub parent: Option<SubCategory>, pub all: HashMap<String, Vec<SubCategory>> }}\n\
+            #[derive(Serialize, Deserialize)]\npub struct SubCategory {{ pub id: u32 }}\n#[tauri::command]\npub fn categories() -> Vec<Category> {{ vec![] }}\n\
             #[derive(Serialize, Deserialize)]\npub struct Account {{ pub id: u32, token: String, pub(crate) retries: u32, pub(super) zone: Option<String> }}\n\
             #[tauri::command]\npub fn account(a: Account) -> Account {{ a }}\n", HDR);
         let dir = root.join("modes/src");
         write_files(&dir, &[("lib.rs".to_string(), src)]);
         let none = generate(&dir, &root.join("modes/out_none"), "none");
         let zod = generate(&dir, &root.join("modes/out_zod"), "zod");
-        for name in ["Ping", "AllSkipped", "Item", "Holder", "Account", "PingParams", "ItemsParams", "QualifiedParams"] {
+        for name in ["Ping", "AllSkipped", "Item", "Holder", "Account", "Category", "SubCategory", "PingParams", "ItemsParams", "QualifiedParams"] {
             rep.case("both_modes_same_names_and_keys", &format!("type {}", name), &|| {
                 let n = none.as_ref().map_err(|e| e.clone())?.get("types.ts").ok_or("no types.ts (none)")?;
                 let z = zod.as_ref().map_err(|e| e.clone())?.get("types.ts").ok_or("no types.ts (zod)")?;
@@ -1086,6 +1099,8 @@ fn main() {
             ("f_range_neg", "#[validate(range(min = -10, max = -1.5))]", "f64", false, false, vec![".min(-10", ".max(-1.5"], vec![]),
             ("f_range_swapped", "#[validate(range(min = 10, max = 1))]", "i32", false, false, vec![".min(10", ".max(1"], vec![]),
             ("f_len_vec", "#[validate(length(min = 1, max = 3))]", "Vec<String>", false, false, vec![".min(1", ".max(3"], vec![]),
+            ("f_code_before_msg", "#[validate(length(min = 1, max = 280, code = \"message_length\", message = \"1 to 280 characters\"))]", "String", false, false, vec![".min(1", ".max(280", "1 to 280 characters"], vec![]),
+            ("f_code_after_msg", "#[validate(range(min = 1, message = \"at least one\", code = \"message_min\"))]", "u32", false, false, vec![".min(1", "at least one"], vec!["message_min"]),
             ("f_len_matrix", "#[validate(length(min = 1, max = 3))]", "Vec<Vec<String>>", false, false, vec!["z.array(z.array(z.string()))", ".min(1", ".max(3"], vec!["z.string()).min(", "z.string()).max("]),
             ("f_len_opt_matrix", "#[validate(length(min = 2, message = \"two rows\"))]", "Option<Vec<Vec<u32>>>", false, false, vec![".min(2", "two rows"], vec!["number()).min("]),
             ("f_len_map_of_vecs", "#[validate(length(min = 1))]", "HashMap<String, Vec<u32>>", false, false, vec![], vec!["number()).min("]),
@@ -1224,8 +1239,8 @@ fn main() {
             #[derive(Serialize, Deserialize, Clone)]\npub struct Stamped {{ pub at: ext::Stamp, pub all: Vec<ext::Stamp>, pub by: HashMap<String, Option<ext::Stamp>>, pub span: Span, pub spans: Vec<Span> }}\n\
             #[derive(Serialize, Deserialize, Clone)]\npub struct Span {{ pub secs: u32 }}\n\
             #[derive(Serialize, Deserialize, Clone)]\n#[serde(into = \"u64\", try_from = \"u64\")]\npub struct LocalStamp {{ pub secs: u64, pub zone: LocalZone }}\n#[derive(Serialize, Deserialize, Clone)]\npub struct LocalZone {{ pub offset: i32 }}\n\
-            #[derive(Serialize, Deserialize, Clone)]\npub struct Visit {{ pub at: LocalStamp, pub earlier: Vec<Option<LocalStamp>> }}\n\
-            #[tauri::command]\npub fn visits(first: LocalStamp) -> Vec<Visit> {{ vec![] }}\n\
+            #[derive(Serialize, Deserialize, Clone)]\npub struct Visit {{ pub at: LocalStamp, pub earlier: Vec<Option<LocalStamp>>, #[serde(with = \"stamp_fmt\")] pub due: Timestamp, #[serde(serialize_with = \"ser_ids\", deserialize_with = \"de_ids\")] pub ids: Vec<Uuid>, #[serde(default, with = \"opt_fmt\")] pub paid: Option<Timestamp> }}\n\
+            #[tauri::command]\npub fn visits(first: LocalStamp, zone: LocalZone) -> Vec<Visit> {{ vec![] }}\n\
             #[tauri::command]\npub fn stamps(s: Stamped, first: ext::Stamp, on_stamp: Channel<ext::Stamp>, on_many: Channel<Vec<Option<ext::Stamp>>>) -> Result<Vec<ext::Stamp>, String> {{ Ok(vec![]) }}\n", HDR);
         let dir = root.join("mapped/src");
         write_files(&dir, &[("lib.rs".to_string(), src)]);
@@ -1263,6 +1278,7 @@ fn main() {
                 Ok("ok".into())
             });
             rep.case("type_references_resolve", &format!("project=mapped mode={}", mode), &|| references_resolve(res.as_ref().map_err(|e| e.clone())?, &["Account", "Stamped", "Span", "Visit", "LocalZone"]));
+            if mode == "zod" { rep.case("schemas_defined_before_use", "project=mapped", &|| schemas_defined_before_use(res.as_ref().map_err(|e| e.clone())?.get("types.ts").ok_or("no types.ts")?)); }
             // C18: a type the mapping does not name is rendered exactly as without the mapping
             rep.case("unmapped_types_are_rendered_as_without_the_mapping", &format!("project=mapped mode={} type Span (the table has the key ext::Span, which names another type)", mode), &|| {
                 let files = res.as_ref().map_err(|e| e.clone())?;
@@ -1294,7 +1310,7 @@ fn main() {
                 // (struct, key, text the declaration / schema of the key must be)
                 let want: Vec<(&str, &str, &str, &str)> = vec![("Stamped", "at", "number", "z.coerce.number()|z.number()"), ("Stamped", "all", "number[]", "z.array(z.coerce.number())|z.array(z.number())"),
                     ("Stamped", "span", "Span", "SpanSchema"), ("Stamped", "spans", "Span[]", "z.array(SpanSchema)"), ("Account", "id", "string", "z.string()|z.coerce.string()"),
-                    ("Visit", "at", "number", "z.coerce.number()|z.number()")];
+                    ("Visit", "at", "number", "z.coerce.number()|z.number()"), ("Visit", "due", "number", "z.coerce.number()|z.number()"), ("Visit", "ids", "string[]", "z.array(z.string())|z.array(z.coerce.string())")];
                 for (sname, key, plain, zods) in want {
                     if mode == "zod" {
                         let got = zod_field(t, sname, key).ok_or(format!("UNPARSED: {}Schema.{}", sname, key))?;
@@ -1319,6 +1335,38 @@ fn main() {
                 Ok("ok".into())
             });
             rep.case("generated_files_are_lexically_wellformed", &format!("project=mapped mode={}", mode), &|| lexical_wellformed(res.as_ref().map_err(|e| e.clone())?));
+        }
+    }
+    // ============================================================ C13 / C18: a mapping table with a bare generic name and one of its instances gives the same output on every run
+    {
+        let src = format!("{}#[derive(Serialize, Deserialize, Clone)]\npub struct Meeting {{ pub starts_at: DateTime<Utc>, pub ends_at: Option<DateTime<Utc>>, pub local: DateTime<Local>, pub title: String }}\n\
+            #[tauri::command]\npub fn next_meeting(after: DateTime<Utc>) -> Meeting {{ todo!() }}\n", HDR);
+        let dir = root.join("overlap/src");
+        write_files(&dir, &[("lib.rs".to_string(), src)]);
+        for mode in ["none", "zod"] {
+            rep.case("overlapping_mapping_keys_are_deterministic", &format!("project=overlap mode={} keys DateTime, DateTime<Utc>, DateTime<Local>, 16 runs", mode), &|| {
+                let mut first: Option<String> = None;
+                for run in 0..16 {
+                    let out = root.join(format!("overlap/out_{}_{}", mode, run));
+                    let _ = fs::remove_dir_all(&out);
+                    let mut cfg = GenerateConfig::default();
+                    cfg.project_path = dir.to_string_lossy().to_string();
+                    cfg.output_path = out.to_string_lossy().to_string();
+                    cfg.validation_library = mode.to_string();
+                    // a fresh table per run: every HashMap has its own iteration order
+                    let mut table = std::collections::HashMap::new();
+                    for (k, v) in [("DateTime<Utc>", "Date"), ("DateTime", "string"), ("DateTime<Local>", "number"), ("Date", "string"), ("Utc", "string")] { table.insert(k.to_string(), v.to_string()); }
+                    cfg.type_mappings = Some(table);
+                    generate_from_config(&cfg).map_err(|e| format!("generate_from_config returned Err: {}", e))?;
+                    let t = without_timestamps(&fs::read_to_string(out.join("types.ts")).map_err(|e| e.to_string())?);
+                    match &first { None => first = Some(t), Some(f) if *f != t => return Err(format!("run {} produced a different types.ts than run 0 for identical sources and configuration", run)), _ => {} }
+                }
+                let t = first.unwrap_or_default();
+                let got = if mode == "zod" { zod_field(&t, "Meeting", "starts_at") } else { object_entries(&t, "Meeting", false).and_then(|es| es.into_iter().find(|(k, _)| k == "starts_at").map(|(_, v)| v.trim_end_matches(';').to_string())) }.ok_or("UNPARSED: Meeting.starts_at not found")?;
+                if mode == "none" && got != "Date" { return Err(format!("Meeting.starts_at is `{}`; the table maps DateTime<Utc> to Date", got)); }
+                if mode == "zod" && !got.contains("Date") { return Err(format!("Meeting.starts_at has the schema `{}`; the table maps DateTime<Utc> to Date", got)); }
+                Ok(got)
+            });
         }
     }
     // ============================================================ C07 (known finding): tuple structs are project-defined serde structs too
@@ -1550,10 +1598,12 @@ fn main() {
     {
         let src = format!("{}use tauri::Emitter;\nuse tauri::ipc::Channel;\n#[derive(Serialize, Deserialize, Clone)]\npub struct Cell {{ pub id: u32 }}\n#[derive(Serialize, Deserialize, Clone)]\npub struct OnlyInArray {{ pub id: u32 }}\n#[derive(Serialize, Deserialize, Clone)]\npub struct OnlyInParam {{ pub id: u32 }}\n\
             #[derive(Serialize, Deserialize, Clone)]\npub struct Grid {{ pub cells: [[Cell; 3]; 3], pub key: [u8; 32], pub pairs: Vec<[(String, OnlyInArray); 2]>, pub opt: Option<[bool; 2]> }}\n\
-            #[tauri::command]\npub fn grid(app: tauri::AppHandle, seed: [u8; 4], ch: Channel<[Cell; 2]>, names: &[String], extra: [OnlyInParam; 1]) -> Result<[Grid; 2], String> {{ todo!() }}\n", HDR);
+            #[tauri::command]\npub fn grid(app: tauri::AppHandle, seed: [u8; 4], ch: Channel<[Cell; 2]>, names: &[String], extra: [OnlyInParam; 1]) -> Result<[Grid; 2], String> {{ todo!() }}\n\
+            #[derive(Serialize, Deserialize, Clone)]\npub struct Mesh {{ pub points: &'static [[f32; 3]], pub tagged: &'static [(String, [u8; 4])], pub rows: Vec<[[u8; 2]; 2]> }}\n\
+            #[tauri::command]\npub fn mesh(points: &[[f32; 3]]) -> Mesh {{ todo!() }}\n", HDR);
         let dir = root.join("arrays/src");
         write_files(&dir, &[("lib.rs".to_string(), src)]);
-        let tys = ["Cell", "OnlyInArray", "OnlyInParam", "Grid"];
+        let tys = ["Cell", "OnlyInArray", "OnlyInParam", "Grid", "Mesh"];
         for mode in ["none", "zod"] {
             let files = generate(&dir, &root.join(format!("arrays/out_{}", mode)), mode);
             rep.case("generated_files_are_lexically_wellformed", &format!("project=arrays mode={}", mode), &|| lexical_wellformed(files.as_ref().map_err(|e| e.clone())?));
@@ -1562,6 +1612,11 @@ fn main() {
             rep.case("field_types_follow_the_table", &format!("project=arrays mode={}", mode), &|| {
                 let files = files.as_ref().map_err(|e| e.clone())?;
                 let t = files.get("types.ts").ok_or("no types.ts")?;
+                for (sname, k, ts, zs) in [("Mesh", "points", "number[][]", "z.array(z.array(z.coerce.number()))"), ("Mesh", "tagged", "[string, number[]][]", "z.array(z.tuple([z.string(), z.array(z.coerce.number())]))"), ("Mesh", "rows", "number[][][]", "z.array(z.array(z.array(z.coerce.number())))"), ("MeshParams", "points", "number[][]", "z.array(z.array(z.coerce.number()))")] {
+                    let got = if mode == "zod" { zod_field(t, sname, k) } else { object_entries(t, sname, false).and_then(|es| es.into_iter().find(|(kk, _)| kk == k).map(|(_, v)| v.trim_end_matches(';').to_string())) }.ok_or(format!("{} has no key {}", sname, k))?;
+                    let want = if mode == "zod" { zs } else { ts };
+                    if got != want { return Err(format!("{}.{}: `{}`, serde writes nested sequences: `{}`", sname, k, got, want)); }
+                }
                 let want: Vec<(&str, &str, &str)> = vec![("cells", "Cell[][]", "z.array(z.array(CellSchema))"), ("key", "number[]", "z.array(z.coerce.number())"), ("pairs", "[string, OnlyInArray][][]", "z.array(z.array(z.tuple([z.string(), OnlyInArraySchema])))")];
                 for (k, ts, zs) in want {
                     if mode == "zod" {
@@ -1583,6 +1638,9 @@ fn main() {
             #[tauri::command]\npub fn shared_items(app: tauri::AppHandle) -> std::sync::Arc<Vec<Item>> {{ let all: std::sync::Arc<Vec<Item>> = todo!(); app.emit(\"items:changed\", all.clone()).ok(); all }}\n\
             #[tauri::command]\npub fn boxed() -> Result<std::rc::Rc<HashMap<String, Item>>, String> {{ todo!() }}\n\
             #[tauri::command]\npub fn cell() -> Option<std::sync::Arc<std::sync::Mutex<Vec<Option<Item>>>>> {{ None }}\n\
+            #[tauri::command]\npub fn uptime(app: tauri::AppHandle) -> std::time::Duration {{ let d: std::time::Duration = todo!(); app.emit(\"uptime:tick\", d).ok(); d }}\n\
+            #[tauri::command]\npub fn lap() -> Option<Duration> {{ None }}\n#[tauri::command]\npub fn laps(since: Duration) -> Result<Vec<Duration>, String> {{ todo!() }}\n\
+            #[derive(Serialize, Deserialize, Clone)]\npub struct Timing {{ pub total: Duration, pub laps: Vec<std::time::Duration> }}\n#[tauri::command]\npub fn timing() -> Timing {{ todo!() }}\n\
             #[tauri::command]\npub fn wrapped(p: Wrapped<Vec<crate::Item>, self::Item>) -> Wrapped<crate::models::Item, (u8, super::Item)> {{ todo!() }}\n", HDR);
         let dir = root.join("pointers/src");
         write_files(&dir, &[("lib.rs".to_string(), src)]);
